@@ -228,7 +228,7 @@ pub fn mpath_std<T: Shape>(s: &mut [T], toks: &[&str]) -> String {
         "last" => match s.last_mut() { Some(e) => welem(e, rest), None => "none".into() },
         "get" => match s.get_mut(a) { Some(e) => welem(e, rest), None => "none".into() },
         "idx" => { let e = &mut s[a]; if let Some(Some((_, leaf, tag))) = rest.first().map(|x| tokw(x)) { let mut j = leaf; T::own_write(e, &mut j, tag * 8 + leaf as u32); "written".into() } else { el_ids(e) } }
-        "reborrow" => mpath_std(s, rest),
+        "reborrow" | "rebdrop" | "peek" => mpath_std(s, rest),
         "as_ref" | "as_slice" => spath_std(s, rest),
         _ => panic!("bad view token {}", t),
     }
@@ -355,6 +355,9 @@ macro_rules! interp {
                     "get" => match s.get_mut(a) { Some(e) => welem(e, rest), None => "none".into() },
                     "idx" => { let mut e = s.index_mut(a); if let Some(Some((_, leaf, tag))) = rest.first().map(|x| tokw(x)) { let mut j = leaf; <T as Shape>::rm_write(&mut e, &mut j, tag * 8 + leaf as u32); "written".into() } else { rmids_s(&e) } }
                     "reborrow" => mpath(s.reborrow(), rest),
+                    // take a child view (explicitly, or inside get_mut / index_mut / as_slice), drop it, go on with the parent
+                    "rebdrop" => { { let _child = s.reborrow(); } mpath(s, rest) }
+                    "peek" => { { let _e = s.get_mut(a); } { let _c = s.as_slice(); } mpath(s, rest) }
                     "as_ref" => spath(s.as_ref(), rest),
                     "as_slice" => spath(s.as_slice(), rest),
                     _ => panic!("bad view token {}", t),
